@@ -538,6 +538,19 @@ func TestCheck(t *testing.T) {
 			}
 		}
 	}
+	// (3i) four missing data shards with a non-contiguous set of lowest parity rows {0, 1, 21845, 21846}: a row below the pivot
+	// already has a zero in the pivot column while a later one has not
+	for k, miss := range [][]int{{0, 2, 4, 5}, {1, 2, 3, 4}, {0, 1, 2, 3, 5}} {
+		if !cfg.Mine(4900 + k) {
+			continue
+		}
+		rec.Class("non-contiguous-rows-with-vanishing-minor")
+		keep := []int{0, 1, 21845, 21846}
+		if len(miss) == 5 {
+			keep = []int{0, 1, 21845, 21846, 21847}
+		}
+		do(Case{Coder: "vand", D: 6, P: 21848, Len: 4, G: 1 + k, MissD: miss, KeepPar: keep, Seed: uint64(500 + k)})
+	}
 	// (3f) goroutine counts far beyond the number of work units, up to the largest int
 	for gi, g := range []int{1 << 20, 1<<31 - 1, 1 << 31, 1 << 40, 1 << 59, 1<<63 - 1} {
 		if !cfg.Mine(4100 + gi) {
